@@ -130,6 +130,8 @@ class Engine:
         self.uf_axioms = []
         self.uf_pins = []
         self.hash_used = False
+        self.str_tokens = {}
+        self.built = {}
         self.str_vars = set()
         self.solver.check()
         self.model = self.solver.model()
@@ -330,9 +332,35 @@ def zs(o):
         return o.z
     if isinstance(o, str):
         if MARK in o:
-            raise Unsupported("a string built by formatting a symbolic value is used as data")
+            return built_string(o)
         return z3.RealVal(str_image(o))
     raise Unsupported("string expected, got %r" % type(o))
+
+
+_TOKEN = None
+
+
+def built_string(o):
+    """a concrete str assembled by the code from symbolic pieces (join, %-formatting, +): every proxy
+    carries a unique token as its content, so a string that consists of exactly one token IS that
+    symbolic string; anything longer is an opaque fresh string (sound over-approximation: nothing is
+    known about a concatenation in the order embedding) and the path is marked like a hashed one"""
+    global _TOKEN
+    import re as _re
+    if _TOKEN is None:
+        _TOKEN = _re.compile(_re.escape(MARK) + r"(\d+)" + _re.escape(MARK))
+    e = E()
+    m = _TOKEN.fullmatch(o)
+    if m is not None and int(m.group(1)) in e.str_tokens:
+        return e.str_tokens[int(m.group(1))]
+    if o not in e.built:
+        n = e.name("built")
+        z = z3.Real(n)
+        e.str_vars.add(n)
+        e.assume(z >= 0)
+        e.built[o] = z
+        e.hash_used = True       # passes on this path are not trusted; counterexamples are replayed
+    return e.built[o]
 
 
 # ---------------------------------------------------------------------------------------------
@@ -462,7 +490,13 @@ class SStr(str):
     """symbolic str.  Subclasses str so that the code's own isinstance(x, type("")) assertions hold."""
 
     def __new__(cls, z):
-        o = str.__new__(cls, MARK)
+        e = Engine.cur
+        if e is not None and hasattr(e, "str_tokens"):
+            k = len(e.str_tokens)
+            e.str_tokens[k] = z
+            o = str.__new__(cls, "%s%d%s" % (MARK, k, MARK))
+        else:
+            o = str.__new__(cls, MARK)
         o.z = z
         return o
 
